@@ -13,7 +13,7 @@ from sim import world as Wd
 ID = 'C18'
 LEVEL = 'exploration'
 ENGINE = 'history'
-BUDGET = {'quick': 2500, 'thorough': 150000}
+BUDGET = {'quick': 6000, 'thorough': 150000}
 WALL = {'quick': 45, 'thorough': 1500}
 RULE = ('trash-put of one symlink per case (to file, dir, nothing, another link, itself; relative/absolute target; target inside/outside the '
         'volume), written with 0-3 trailing slashes, reached directly / through another symlinked directory, then trash-restore of it; '
